@@ -4,12 +4,15 @@ import (
 	"bytes"
 	"context"
 	"fmt"
+	"io"
 	"log"
 	"net"
+	"os"
 	"regexp"
 	"strconv"
 	"strings"
 	"sync"
+	"syscall"
 	"time"
 
 	kmip "github.com/smira/go-kmip"
@@ -71,12 +74,24 @@ func runAcceptSeq(seq []string) (trace string, wall time.Duration, err error) {
 		}
 	}
 	terminal := false
+	var permanentErr error = rec.ErrPermanent
 	for i, o := range seq {
 		switch o[0] {
 		case 'T':
-			l.Push(rec.AcceptStep{Temporary: true})
+			// temporary errors as they occur in practice: not timeouts (EMFILE, ENFILE: syscall.Errno.Temporary), and a temporary timeout
+			tempErrs := []error{nil, &net.OpError{Op: "accept", Net: "tcp", Err: os.NewSyscallError("accept", syscall.EMFILE)},
+				&net.OpError{Op: "accept", Net: "tcp", Err: os.NewSyscallError("accept", syscall.ENFILE)}, rec.TempTimeoutErr{}}
+			l.Push(rec.AcceptStep{Temporary: true, Err: tempErrs[(i+len(seq))%len(tempErrs)]})
 		case 'P':
-			l.Push(rec.AcceptStep{Permanent: true})
+			// permanent errors of several shapes, none of them caused by Shutdown (which is not called in these sequences)
+			permErrs := []error{nil, &net.OpError{Op: "accept", Net: "tcp", Err: net.ErrClosed}, net.ErrClosed, io.EOF,
+				&net.OpError{Op: "accept", Net: "tcp", Err: os.NewSyscallError("accept", syscall.EINVAL)},
+				&net.OpError{Op: "accept", Net: "tcp", Err: os.NewSyscallError("accept", syscall.ECONNABORTED)}, rec.TimeoutOnlyErr{}}
+			permanentErr = permErrs[(i+len(seq))%len(permErrs)]
+			if permanentErr == nil {
+				permanentErr = rec.ErrPermanent
+			}
+			l.Push(rec.AcceptStep{Permanent: true, Err: permanentErr})
 			terminal = true
 		case 'K', 'L':
 			id, _ := strconv.Atoi(o[1:])
@@ -200,7 +215,7 @@ func runAcceptSeq(seq []string) (trace string, wall time.Duration, err error) {
 	if returned {
 		if serveErr == nil {
 			out = append(out, "return:nil")
-		} else if serveErr == rec.ErrPermanent {
+		} else if serveErr == permanentErr {
 			out = append(out, "return:err")
 		} else {
 			out = append(out, "return:OTHER("+serveErr.Error()+")")
